@@ -1,2 +1,182 @@
-/- C12 — theorems under construction -/
+/-
+C12 — models are accepted iff well-formed, and rejected before any side effect.
+-/
+import MPilot.Props.C20
 import MPilot.Model.Program
+
+namespace MPilot.C12
+open MPilot
+
+variable {Val : Type}
+
+/-! ### loading: `add_command` accepts exactly the well-formed commands, and names the offender otherwise -/
+
+/-- a command as written is acceptable to `add_command` -/
+def CmdOK (p : Program) (decl : CmdDecl) (resultName : String) (args : List Arg) : Prop :=
+  (p.find? resultName).isSome = false ∧
+  (∀ i ∈ decl.inputs, i.required = true → ∃ a ∈ args, a.name = i.name) ∧
+  (decl.allowExtra = true ∨ ∀ a ∈ args, (decl.input? a.name).isSome = true)
+
+theorem addCommand_ok_iff (p : Program) (decl : CmdDecl) (rn : String) (args : List Arg) (line : Option Nat) :
+    (∃ p', addCommand p decl rn args line = .ok p') ↔ CmdOK p decl rn args := by
+  unfold addCommand CmdOK
+  constructor
+  · rintro ⟨p', h⟩
+    split at h
+    · cases h
+    · rename_i h1
+      split at h
+      · cases h
+      · rename_i h2
+        split at h
+        · cases h
+        · rename_i h3
+          refine ⟨by simpa using h1, ?_, ?_⟩
+          · intro i hi hreq
+            simp only [List.any_eq_true, List.mem_filter, Bool.not_eq_true', not_exists, not_and, and_imp] at h2
+            have := h2 i hi hreq
+            simp only [Bool.not_eq_false, List.any_eq_true, beq_iff_eq] at this
+            exact this
+          · by_cases hx : decl.allowExtra = true
+            · exact Or.inl hx
+            · right
+              intro a ha
+              have := List.find?_eq_none.mp h3 a ha
+              simp only [hx, Bool.not_false, Bool.and_true, Bool.not_eq_true'] at this
+              cases hq : decl.input? a.name with
+              | none => simp [hq] at this
+              | some _ => rfl
+  · rintro ⟨h1, h2, h3⟩
+    rw [if_neg (by simpa using h1)]
+    have e2 : ((decl.inputs.filter (·.required)).any fun i => !(args.any (·.name == i.name))) = false := by
+      simp only [List.any_eq_false, List.mem_filter, Bool.not_eq_true', and_imp]
+      intro i hi hreq
+      obtain ⟨a, ha, hn⟩ := h2 i hi hreq
+      intro hno
+      exact hno a ha (by simpa using hn)
+    rw [if_neg (by simp [e2])]
+    have e3 : args.find? (fun a => (decl.input? a.name).isNone && !decl.allowExtra) = none := by
+      apply List.find?_eq_none.mpr
+      intro a ha
+      rcases h3 with h3 | h3
+      · simp [h3]
+      · have := h3 a ha
+        simp [Option.isNone_iff_eq_none, Option.isSome_iff_ne_none.mp this]
+    rw [e3]
+    exact ⟨_, rfl⟩
+
+/-- the specific error, in the code's order of checks: duplicate result before missing parameters before undeclared parameter;
+each carries the line of the offending command (or of the offending argument) -/
+theorem addCommand_errors (p : Program) (decl : CmdDecl) (rn : String) (args : List Arg) (line : Option Nat) :
+    ((p.find? rn).isSome = true → addCommand p decl rn args line = .error (.mp "DuplicateResult" line)) ∧
+    ((p.find? rn).isSome = false → (∃ i ∈ decl.inputs, i.required = true ∧ ∀ a ∈ args, a.name ≠ i.name) →
+        addCommand p decl rn args line = .error (.mp "MissingParameters" line)) := by
+  unfold addCommand
+  constructor
+  · intro h; rw [if_pos h]
+  · intro h1 ⟨i, hi, hreq, hno⟩
+    rw [if_neg (by simpa using h1)]
+    have : ((decl.inputs.filter (·.required)).any fun i => !(args.any (·.name == i.name))) = true := by
+      simp only [List.any_eq_true, List.mem_filter]
+      refine ⟨i, ⟨hi, hreq⟩, ?_⟩
+      simp only [Bool.not_eq_true', List.any_eq_false, beq_iff_eq]
+      intro a ha; exact hno a ha
+    rw [if_pos this]
+
+/-- an unknown command name is reported with the line of that command -/
+theorem unknown_command (lib : String → Option CmdDecl) (p : Program) (n : Node) (rest : List Node) (h : lib n.command = none) :
+    fromNodes lib p (n :: rest) = .error (.mp "CommandDoesNotExist" n.line) := by
+  unfold fromNodes; rw [h]
+
+/-! ### the pre-pass accepts exactly the programs all of whose declared arguments clean -/
+
+theorem prepassCmd_ok_iff (ctx : Ctx) (c : PCmd) : ∀ (args : List Arg),
+    (∃ r, prepassCmd ctx c args = .ok r) ↔
+      ∀ a ∈ args, ∀ i, c.decl.input? a.name = some i → ∃ w, clean ctx i.spec a.value = .ok w := by
+  intro args
+  induction args with
+  | nil => simp [prepassCmd]
+  | cons a rest ih =>
+    unfold prepassCmd
+    cases hi : c.decl.input? a.name with
+    | none =>
+      simp only
+      rw [ih]
+      constructor
+      · intro h b hb i hbi
+        rcases List.mem_cons.mp hb with rfl | hb
+        · rw [hi] at hbi; cases hbi
+        · exact h b hb i hbi
+      · intro h b hb; exact h b (List.mem_cons_of_mem _ hb)
+    | some i =>
+      simp only
+      cases hc : clean ctx i.spec a.value with
+      | error e =>
+        simp only
+        constructor
+        · rintro ⟨r, hr⟩; cases hr
+        · intro h
+          obtain ⟨w, hw⟩ := h a (List.mem_cons_self ..) i hi
+          rw [hc] at hw; cases hw
+      | ok v =>
+        simp only
+        constructor
+        · rintro ⟨r, hr⟩
+          cases hrest : prepassCmd ctx c rest with
+          | error e => rw [hrest] at hr; cases hr
+          | ok t =>
+            have hall := ih.mp ⟨t, hrest⟩
+            intro b hb j hbj
+            rcases List.mem_cons.mp hb with rfl | hb
+            · rw [hi] at hbj; injection hbj with hbj; subst hbj; exact ⟨v, hc⟩
+            · exact hall b hb j hbj
+        · intro h
+          obtain ⟨t, ht⟩ := ih.mpr fun b hb => h b (List.mem_cons_of_mem _ hb)
+          rw [ht]
+          obtain ⟨d, al⟩ := t
+          simp only
+          split <;> exact ⟨_, rfl⟩
+
+/-- the first argument (in file order) that does not clean is the one reported, with its own line -/
+theorem prepassCmd_first_error (ctx : Ctx) (c : PCmd) (a : Arg) (rest : List Arg) (i : InputDecl) (e : CleanErr)
+    (hi : c.decl.input? a.name = some i) (he : clean ctx i.spec a.value = .error e) :
+    prepassCmd ctx c (a :: rest) = .error (cleanErrToPErr e a.line) := by
+  unfold prepassCmd; rw [hi]; simp only [he]
+
+/-! ### rejection happens before anything executes -/
+
+/-- **rejected before any side effect**: whatever error the pre-pass raises, `run` returns it with the state untouched —
+no command body entered, no result produced -/
+theorem reject_no_effects (sem : Sem Val) (p : Program) (st : St Val) (e : PErr)
+    (h : prepass (mkCtx sem p st) p.cmds = .error e) : run sem p st = (st, some e) := by
+  unfold run; rw [h]
+
+/-- all load-time rejections happen before a `Program` exists at all: `fromNodes` returns no program -/
+theorem load_reject_no_program (lib : String → Option CmdDecl) (p : Program) (nodes : List Node) (e : PErr)
+    (h : fromNodes lib p nodes = .error e) : ¬∃ p', fromNodes lib p nodes = .ok p' := by
+  rintro ⟨p', hp⟩; rw [h] at hp; cases hp
+
+/-- a reference parameter accepts exactly: an existing result, of the required fuzziness, whose declared output kind is accepted -/
+theorem result_ref_ok_iff (ctx : Ctx) (ot : Option PClass) (fz : Option Bool) (s : String) (info : CmdInfo)
+    (hl : ctx.lookup s = some info) (hnf : info.finished = false) :
+    (∃ w, clean ctx (.result ot fz) (.str s) = .ok w) ↔
+      (fz = some true → info.isFuzzy = true) ∧ (fz = some false → info.isFuzzy = false) ∧
+      (∀ want, ot = some want → ∀ out, info.output = some out → want.acceptsOutput out = true) := by
+  unfold clean
+  simp only [hl, Option.isSome_some, if_true]
+  constructor
+  · rintro ⟨w, h⟩
+    repeat' (first | split at h | (dsimp only at h))
+    all_goals first | (injection h; done) | skip
+    all_goals simp_all
+  · rintro ⟨h1, h2, h3⟩
+    repeat' (first | split | (dsimp only))
+    all_goals first | exact ⟨_, rfl⟩ | skip
+    all_goals simp_all
+
+/-- a reference to a result that does not exist is reported as such -/
+theorem result_ref_missing (ctx : Ctx) (ot : Option PClass) (fz : Option Bool) (s : String) (hl : ctx.lookup s = none) :
+    clean ctx (.result ot fz) (.str s) = .error "ResultDoesNotExist" := by
+  unfold clean; simp [hl]
+
+end MPilot.C12
